@@ -45,16 +45,17 @@ type FuncInfo struct {
 }
 
 type Program struct {
-	Dir    string
-	Config Config
-	Fset   *token.FileSet
-	Pkgs   map[string]*packages.Package // by import path
-	Root   *packages.Package            // gorgonia.org/tensor
-	Exec   *packages.Package
-	Stor   *packages.Package
-	Native *packages.Package
-	Funcs  map[string]*FuncInfo // by key
-	ByObj  map[*types.Func]*FuncInfo
+	Dir      string
+	Config   Config
+	Fset     *token.FileSet
+	Pkgs     map[string]*packages.Package // by import path
+	Closures []*FuncInfo                  // function literals, keyed parent$N
+	Root     *packages.Package            // gorgonia.org/tensor
+	Exec     *packages.Package
+	Stor     *packages.Package
+	Native   *packages.Package
+	Funcs    map[string]*FuncInfo // by key
+	ByObj    map[*types.Func]*FuncInfo
 
 	ssaOnce sync.Once
 	SSAProg *ssa.Program
@@ -150,6 +151,19 @@ func Load(dir string, cfg Config) (*Program, error) {
 				fi := &FuncInfo{Decl: fd, Obj: obj, Pkg: pk, File: base, Key: key}
 				p.Funcs[key] = fi
 				p.ByObj[obj] = fi
+				// function literals as analysable units of their own (constructor options, deferred
+				// and helper closures): key parent$N in source order
+				if fd.Body != nil {
+					n := 0
+					ast.Inspect(fd.Body, func(nd ast.Node) bool {
+						if lit, ok := nd.(*ast.FuncLit); ok {
+							n++
+							ck := fmt.Sprintf("%s$%d", key, n)
+							p.Closures = append(p.Closures, &FuncInfo{Decl: &ast.FuncDecl{Name: ast.NewIdent(fmt.Sprintf("%s$%d", fd.Name.Name, n)), Type: lit.Type, Body: lit.Body}, Obj: obj, Pkg: pk, File: base, Key: ck})
+						}
+						return true
+					})
+				}
 			}
 		}
 	}
@@ -295,4 +309,12 @@ func IsExportedKey(k string) bool {
 	}
 	c := k[i+1]
 	return c >= 'A' && c <= 'Z'
+}
+
+// AnalysisFuncs lists declared functions and function literals (as units of their own), sorted by key.
+func (p *Program) AnalysisFuncs() []*FuncInfo {
+	out := p.SortedFuncs()
+	out = append(out, p.Closures...)
+	sort.Slice(out, func(i, j int) bool { return out[i].Key < out[j].Key })
+	return out
 }
